@@ -92,6 +92,9 @@ def Big_Neg (a : Int) : Int := -a
 def Big_Quo (a b : Int) : Option Int := if b = 0 then none else some (a.tdiv b)
 /-- `Rem`: truncated remainder; division by zero panics -/
 def Big_Rem (a b : Int) : Option Int := if b = 0 then none else some (a.tmod b)
+/-- `Div` / `Mod`: Euclidean division (the remainder is never negative); division by zero panics -/
+def Big_Div (a b : Int) : Option Int := if b = 0 then none else some (a.ediv b)
+def Big_Mod (a b : Int) : Option Int := if b = 0 then none else some (a.emod b)
 /-- `Exp(x, y, nil)` = `x^y`, and 1 for `y ≤ 0` -/
 def Big_Exp (a b : Int) : Int := if b ≤ 0 then 1 else a ^ b.toNat
 def Big_Sign (a : Int) : Int := if a < 0 then -1 else if a = 0 then 0 else 1
